@@ -44,7 +44,7 @@ def setup_worker() -> None:
     from zorg.service.compiler._file_compiler import ZorgFileCompiler as Z
 
     for n in ("_add_note", "enterId", "exitBase_todo", "enterTodo_prefix", "enterPriority", "enterDate", "exitBase_note"):
-        harness.COUNTERS.watch(n, getattr(Z, n))
+        harness.COUNTERS.watch_attr(Z, n)
 
 
 def plan(tier: str, seed: int) -> list[dict]:
